@@ -370,7 +370,13 @@ fn execute_inner(c: &HistCase, opts: &Opts) -> HistObs {
             o.total_lifetimes += 1;
             let mut lo = LifeObs::default();
             if life.squat && detailed {
-                for (a, _) in &last_tramps {
+                // (lifetimes with an even number of steps leave every other released address free:
+                // the next trampolines then land *between* foreign pages)
+                let alternate = life.steps.len() % 2 == 0;
+                for (idx, (a, _)) in last_tramps.iter().enumerate() {
+                    if alternate && idx % 2 == 1 {
+                        continue;
+                    }
                     let page = (*a & !0xFFF) as usize;
                     if squats.contains(&(page as u64)) {
                         continue;
@@ -605,13 +611,10 @@ fn execute_inner(c: &HistCase, opts: &Opts) -> HistObs {
             for e in &evs {
                 if e.kind == ip::Kind::Munmap {
                     o.agg_munmaps += 1;
-                    if let Some(p) = kept.iter().position(|g| g.0 == e.a0) {
-                        let g = kept.remove(p);
-                        if ((e.a1 + 4095) & !4095) < ((g.1 + 4095) & !4095) || e.ret != 0 {
-                            o.agg_bad_unmaps += 1;
-                        }
-                    } else {
-                        o.agg_bad_unmaps += 1;
+                    let mut live: std::collections::BTreeMap<u64, u64> = kept.iter().copied().collect();
+                    match crate::acct::release(&mut live, e.a0, e.a1) {
+                        crate::acct::Release::Whole { .. } if e.ret == 0 => kept.retain(|g| live.contains_key(&g.0)),
+                        _ => o.agg_bad_unmaps += 1,
                     }
                 }
             }
